@@ -210,6 +210,12 @@ theorem asciiReplace_eq_ascii (b t : Bytes) (ht : ∀ x ∈ t, x.toNat < 128) (h
       have := ht _ this
       simp at this
 
+theorem openSealOk_seal {cfg : Cfg} {now : Nat} {ttl : Option Int} (h : openSealOk cfg now ttl = true) :
+    sealOk cfg now (expiresOf now ttl cfg.defaultTtl) = true ∧ 0 ≤ (now : Int) + effTtl ttl cfg.defaultTtl := by
+  unfold openSealOk at h
+  simp only [Bool.and_eq_true, decide_eq_true_eq] at h
+  exact ⟨h.2, h.1⟩
+
 /-! ### registry -/
 
 theorem Reg.find_some {r : Reg} {sid : Bytes} {e : Entry} (h : r.find sid = some e) : e ∈ r.entries ∧ e.sid = sid := by
